@@ -7,7 +7,7 @@ from . import simtasks
 _FUNC_CACHE = {}
 
 
-def gen_job_plan(rng, nmax=14, max_out=4, ncomp_max=4, gpu=True, p_empty=0.03):
+def gen_job_plan(rng, nmax=14, max_out=4, ncomp_max=4, gpu=True, p_empty=0.03, p_collide=0.04):
     """Random DAG: several weakly connected components, multi-output tasks, positional / keyword edges,
     static args, multi-edges, isolated tasks, the empty job."""
     if rng.random() < p_empty:
@@ -20,9 +20,17 @@ def gen_job_plan(rng, nmax=14, max_out=4, ncomp_max=4, gpu=True, p_empty=0.03):
     gpu_p = rng.choice([0, 0, 0, 0.2]) if gpu else 0
     shape = rng.choice(["random", "random", "chain", "fan", "layered"])
     tasks = []
+    names = [f"t{i}" for i in range(n)]
+    wide = None
+    if n >= 2 and rng.random() < p_collide:
+        # two DIFFERENT datasets whose task and output names concatenate to the same string: ("m", "10") and ("m1", "0")
+        wide, other = rng.sample(range(n), 2)
+        names[wide], names[other] = "m", "m1"
     for i in range(n):
-        name = f"t{i}"
+        name = names[i]
         nout = rng.choice([1, 1, 1, 2, 3, max_out])
+        if i == wide:
+            nout = 11
         comp = rng.randrange(ncomp)
         cands = [t for t in tasks if t["comp"] == comp]
         inputs = []
